@@ -2,7 +2,6 @@ use std::default::Default;
 use std::fs;
 use std::sync::OnceLock;
 
-use convert_case::{Case, Casing};
 use proc_macro2::TokenStream;
 use quote::quote;
 use regex::Captures;
@@ -211,7 +210,8 @@ pub fn make_url(operation: &Operation) -> TokenStream {
         });
         let path = fix
             .replace_all(&operation.path, |cap: &Captures| {
-                format!("{{{}}}", cap.get(1).unwrap().as_str().to_case(Case::Snake))
+                // the placeholder must be the identifier used for the named argument below
+                format!("{{{}}}", cap.get(1).unwrap().as_str().to_rust_ident().0)
             })
             .to_string();
         quote! {
